@@ -78,6 +78,109 @@ func runC09(c *Ctx, w *World, r *Report) {
 	}
 	r.Units["unsafe_casts_bitstr"] = ncast
 
+	// ---- R-SIGNSUB (generic): ordering by the sign of a wrapped difference
+	r.Rule("R-SIGNSUB", "no ordering decision is taken from the sign of a difference of two full-width unsigned values (int64(x-y) < 0, >>63 ...): the subtraction wraps when the operands differ by 2^63 or more, which inverts the order for bytes >= 0x80 in the leading position")
+	for _, fn := range w.SourceFuncs("bitstr") {
+		bad := ""
+		eachInstr(fn, func(ins ssa.Instruction) {
+			cv, ok := ins.(*ssa.Convert)
+			if !ok || !isIntType(cv.Type()) || isUnsigned(cv.Type()) || w.Sizes.Sizeof(cv.Type()) < 8 {
+				return
+			}
+			sub, ok := cv.X.(*ssa.BinOp)
+			if !ok || sub.Op != token.SUB || !isUnsigned(sub.Type()) || w.Sizes.Sizeof(sub.Type()) < 8 {
+				return
+			}
+			// sign consulted?
+			if cv.Referrers() == nil {
+				return
+			}
+			for _, ref := range *cv.Referrers() {
+				bo, ok := ref.(*ssa.BinOp)
+				if !ok {
+					continue
+				}
+				switch bo.Op {
+				case token.LSS, token.GTR, token.LEQ, token.GEQ:
+					bad = fmt.Sprintf("the sign of the wrapped difference at %s decides an ordering at %s", w.InstrPos(cv), w.InstrPos(bo))
+				case token.SHR:
+					if k, ok := constInt64(bo.Y); ok && k >= 63 {
+						bad = fmt.Sprintf("the sign bit of the wrapped difference at %s is extracted at %s", w.InstrPos(cv), w.InstrPos(bo))
+					}
+				}
+			}
+		})
+		r.Check(bad == "", "R-SIGNSUB", w.FuncName(fn), w.Pos(fn.Pos()), bad)
+	}
+	// ---- R-CMPBYTES: every +-1 verdict of cmpBytes comes from a direct unsigned comparison
+	{
+		n := "bitstr.cmpBytes"
+		fn := fns[n]
+		fa := w.FA(fn)
+		r.Rule("R-CMPBYTES", "cmpBytes returns -1 / +1 only on an edge where a[i] < b[i] / a[i] > b[i] was tested for one index i (bytes compared as unsigned values, first difference wins because the scan starts at 0 and stops at the first inequality), -1 also when a is exhausted first (i < len(b)); otherwise 0 or bytes.Compare(a, b)")
+		bad := ""
+		elemCmp := func(cd Cond) (less, greater bool) {
+			bo, ok := cd.V.(*ssa.BinOp)
+			if !ok {
+				return
+			}
+			op, isCmp := tokOp(bo.Op)
+			if !isCmp {
+				return
+			}
+			if !cd.Pol {
+				op = negOp(op)
+			}
+			ca, ia, ok1 := asElemLoad(bo.X)
+			cb, ib, ok2 := asElemLoad(bo.Y)
+			if !ok1 || !ok2 || fa.VN(ia) != fa.VN(ib) {
+				return
+			}
+			if !isUnsigned(bo.X.Type()) {
+				return
+			}
+			if paramIndex(ca) == 1 && paramIndex(cb) == 0 {
+				op = flipOp(op)
+			} else if !(paramIndex(ca) == 0 && paramIndex(cb) == 1) {
+				return
+			}
+			return op == opLT, op == opGT
+		}
+		for _, ret := range returnsOf(fn) {
+			for _, leaf := range fa.leavesOf(ret.Results[0], ret.Block(), 0) {
+				k, isC := constInt64(stripConv(leaf.V))
+				if !isC {
+					if call, ok := asCall(leaf.V, "bytes.Compare"); ok && paramIndex(call.Common().Args[0]) == 0 && paramIndex(call.Common().Args[1]) == 1 {
+						continue
+					}
+					bad = "result " + fmtVal(w, leaf.V) + " is neither a constant verdict nor bytes.Compare(a, b)"
+					continue
+				}
+				if k == 0 {
+					continue
+				}
+				okV := false
+				for _, cd := range leaf.Conds {
+					l, g := elemCmp(cd)
+					if k == -1 && l || k == 1 && g {
+						okV = true
+					}
+					// a exhausted first: i - len(b) <= -1
+					if k == -1 {
+						if D, op, ok := fa.CondRel(cd); ok && (op == opLT) {
+							if D.T["call:builtin len(p1)"] == -1 {
+								okV = true
+							}
+						}
+					}
+				}
+				if !okV {
+					bad = fmt.Sprintf("verdict %d is returned at %s on an edge without a direct unsigned byte comparison a[i] %s b[i]", k, w.InstrPos(ret), map[int64]string{-1: "<", 1: ">"}[k])
+				}
+			}
+		}
+		r.Check(bad == "", "R-CMPBYTES", n, w.Pos(fn.Pos()), bad, "verdicts come from a[i] < b[i] / a[i] > b[i] / exhaustion / bytes.Compare")
+	}
 	// ---- R-DELEGATE
 	{
 		n := "bitstr.StrCmpUpto"
